@@ -72,7 +72,18 @@ def make_hasher(name, policy, how, i=0):
     from passlib.context import CryptContext
 
     opts = {f"{name}__{k}": v for k, v in s.items() if k in ("rounds", "ident")}
-    if policy is not None:
+    if how == "context-scheme-over-global" and policy is not None and name in HAS_POLICY:
+        # the per-scheme option wins over the context-wide setting (documented option inheritance: all < scheme < category)
+        on = str(policy).lower() in ("true", "1", "yes", "y", "t", "on")
+        opts["truncate_error"] = not on
+        opts[f"{name}__truncate_error"] = policy
+    elif how == "context-category" and policy is not None and name in HAS_POLICY:
+        on = str(policy).lower() in ("true", "1", "yes", "y", "t", "on")
+        opts[f"{name}__truncate_error"] = not on
+        opts[f"admin__{name}__truncate_error"] = policy
+        ctx = CryptContext(schemes=[name], **opts)
+        return (lambda p, **kw: ctx.hash(p, category="admin", **kw)), h
+    elif policy is not None:
         opts["truncate_error"] = policy
     ctx = CryptContext(schemes=[name], **opts)
     return (lambda p, **kw: ctx.hash(p, **kw)), h
@@ -298,7 +309,7 @@ def t_boundary(rec, seed, tier, name):
                 except UnicodeEncodeError:
                     continue
             for pol in policies:
-                hows = ["using", "context"] if pol is not None or name.startswith("cisco") else ["using"]
+                hows = ["using", "context", "context-scheme-over-global", "context-category"] if pol is not None or name.startswith("cisco") else ["using"]
                 if tier == "quick" and "bcrypt" in name and (n % 3):
                     hows = hows[:1]
                 for how in hows:
@@ -343,7 +354,7 @@ def t_hyp_truncate(rec, seed, tier, name):
             except UnicodeDecodeError:
                 pass
         pol = draw(st.sampled_from([True, False, None, "true", "false"] if name in HAS_POLICY else [None]))
-        return {"name": name, "policy": pol, "how": draw(st.sampled_from(["using", "context"])) if pol is not None else "using", "secret": p, "ctx": ctx, "i": draw(st.integers(0, 7))}
+        return {"name": name, "policy": pol, "how": draw(st.sampled_from(["using", "context", "context-scheme-over-global", "context-category"])) if pol is not None else "using", "secret": p, "ctx": ctx, "i": draw(st.integers(0, 7))}
 
     def body(case):
         rec.ev()
